@@ -41,7 +41,6 @@ type gen struct {
 	refs   []string             // link reference definitions to append
 	nlabel int
 	full   bool // ignore findings (used for the never-fails part, where only failure matters)
-	ovSafe bool // raw HTML of tags that a default template also produces carries data-raw
 }
 
 // allow reports whether a construct in the region of finding id may be generated.
@@ -288,14 +287,9 @@ func (g *gen) codeSpan(oneLine bool) string {
 	return d + body + d
 }
 
-func (g *gen) rawTag(tag string) string {
-	// generator convention used by the override check: raw HTML whose tag name is also produced by
-	// a default template carries data-raw so the oracle can tell it from template output
-	if g.ovSafe {
-		return "<" + tag + ` data-raw="1"`
-	}
-	return "<" + tag
-}
+// rawTag starts raw HTML whose tag name is also produced by a default template (the override check
+// must tell the two apart, which it does from the AST, see markRef).
+func (g *gen) rawTag(tag string) string { return "<" + tag }
 
 // rawInline draws inline raw HTML. Elements with content are never "formatting elements" of the
 // HTML parser (a, b, i, u, em, code, ...): Markdown can split an inline element across blocks, and the
@@ -756,30 +750,30 @@ func (g *gen) htmlBlock() []string {
 		closure bool
 	}
 	forms := []form{
-		{[]string{`<div class="x">`, w + " *not em* " + mu, `</div>`}, false},                                      // 6
-		{[]string{`<div>`, ``, "*" + w + "* inside", ``, `</div>`}, false},                                         // 6 + md + 6
-		{[]string{g.rawTag("table") + `><tr><td>` + w + ` &amp; x</td></tr></table>`}, false},                      // 6
-		{[]string{`<section id="s"><h2 data-raw="1" id="keep">` + w + `</h2></section>`}, false},                   // 6
-		{[]string{`<details>`, `<summary>` + w + `</summary>`, mu, `</details>`}, false},                           // 6
-		{[]string{`<span class="y">`, w, `</span>`}, false},                                                        // 7
-		{[]string{`<div>` + g.rawTag("a") + ` href="/x?a=1&amp;b=2">` + w + `</a></div>`}, false},                  // 7
-		{[]string{`<my-element attr='v'>`, w, `</my-element>`}, false},                                             // 7
-		{[]string{g.rawTag("pre") + `>` + w + ` {{ y }}</pre>`}, false},                                            // 1, single line
-		{[]string{`<script>let a = 1;</script>`}, false},                                                           // 1
-		{[]string{`<style>p { color: red }</style>`}, false},                                                       // 1
-		{[]string{`<!-- ` + w + ` -->`}, false},                                                                    // 2
-		{[]string{`<?php echo 1; ?>`}, false},                                                                      // 3
-		{[]string{`<!DOCTYPE html>`}, false},                                                                       // 4
-		{[]string{`<![CDATA[ ` + w + ` ]]>`}, false},                                                               // 5
-		{[]string{g.rawTag("pre") + `>`, "  " + w + " " + mu, "", "**x**", `</pre>`}, true},                        // 1
-		{[]string{`<script>`, `let a = 1 < 2 && "` + mu + `";`, `</script>`}, true},                                // 1
-		{[]string{`<style>`, `p > a { color: red }`, ``, `b {}`, `</style>`}, true},                                // 1
-		{[]string{`<textarea>`, "*" + w + "*", `</textarea>`}, true},                                               // 1
-		{[]string{`<!-- ` + w, ``, `*x* --> tail`}, true},                                                          // 2
-		{[]string{`<?php`, `echo "` + w + `";`, `?>`}, true},                                                       // 3
-		{[]string{`<!X`, w + `>`}, true},                                                                           // 4
-		{[]string{`<![CDATA[`, w, `]]>`}, true},                                                                    // 5
-		{[]string{g.rawTag("pre") + `><code data-raw="1">` + w + `</code>`, `</pre> <q>tail ` + w + `</q>`}, true}, // 1
+		{[]string{`<div class="x">`, w + " *not em* " + mu, `</div>`}, false},                         // 6
+		{[]string{`<div>`, ``, "*" + w + "* inside", ``, `</div>`}, false},                            // 6 + md + 6
+		{[]string{g.rawTag("table") + `><tr><td>` + w + ` &amp; x</td></tr></table>`}, false},         // 6
+		{[]string{`<section id="s"><h2 id="keep">` + w + `</h2></section>`}, false},                   // 6
+		{[]string{`<details>`, `<summary>` + w + `</summary>`, mu, `</details>`}, false},              // 6
+		{[]string{`<span class="y">`, w, `</span>`}, false},                                           // 7
+		{[]string{`<div>` + g.rawTag("a") + ` href="/x?a=1&amp;b=2">` + w + `</a></div>`}, false},     // 7
+		{[]string{`<my-element attr='v'>`, w, `</my-element>`}, false},                                // 7
+		{[]string{g.rawTag("pre") + `>` + w + ` {{ y }}</pre>`}, false},                               // 1, single line
+		{[]string{`<script>let a = 1;</script>`}, false},                                              // 1
+		{[]string{`<style>p { color: red }</style>`}, false},                                          // 1
+		{[]string{`<!-- ` + w + ` -->`}, false},                                                       // 2
+		{[]string{`<?php echo 1; ?>`}, false},                                                         // 3
+		{[]string{`<!DOCTYPE html>`}, false},                                                          // 4
+		{[]string{`<![CDATA[ ` + w + ` ]]>`}, false},                                                  // 5
+		{[]string{g.rawTag("pre") + `>`, "  " + w + " " + mu, "", "**x**", `</pre>`}, true},           // 1
+		{[]string{`<script>`, `let a = 1 < 2 && "` + mu + `";`, `</script>`}, true},                   // 1
+		{[]string{`<style>`, `p > a { color: red }`, ``, `b {}`, `</style>`}, true},                   // 1
+		{[]string{`<textarea>`, "*" + w + "*", `</textarea>`}, true},                                  // 1
+		{[]string{`<!-- ` + w, ``, `*x* --> tail`}, true},                                             // 2
+		{[]string{`<?php`, `echo "` + w + `";`, `?>`}, true},                                          // 3
+		{[]string{`<!X`, w + `>`}, true},                                                              // 4
+		{[]string{`<![CDATA[`, w, `]]>`}, true},                                                       // 5
+		{[]string{g.rawTag("pre") + `><code>` + w + `</code>`, `</pre> <q>tail ` + w + `</q>`}, true}, // 1
 	}
 	f := forms[g.n("hform", 0, len(forms)-1)]
 	if f.closure && !g.allow(fHTMLClosure) {
